@@ -509,6 +509,52 @@ class Check:
                 raise MachineryError(f"{cfg}: vacuous run, actions never taken: {missing}")
         return res
 
+    def apalache_inductive(self, module: str, inv: str, *, init: str = "Init", ind_init: str = "IndInit", nxt: str = "Next",
+                           timeout: int = 600, mutate: tuple[str, str, str] | None = None) -> None:
+        r"""Unbounded argument with Apalache: base case init => inv (length 0) and step ind_init /\ nxt => inv' (length 1).
+        `mutate` = (file, old, new): the step must FAIL when `old` is replaced by `new` in a scratch copy of the spec directory
+        (the argument is not vacuous)."""
+        import shutil as _sh
+        exe = _sh.which("apalache-mc")
+        if exe is None:
+            raise MachineryError("apalache-mc not found")
+
+        def one(specdir: Path, init_op: str, length: int, tag: str) -> tuple[bool, str, float]:
+            out = self.wd / f"apa_{tag}"
+            t0 = time.time()
+            pr = subprocess.run([exe, "check", f"--init={init_op}", f"--next={nxt}", f"--inv={inv}", f"--length={length}",
+                                 f"--out-dir={out}", f"{module}.tla"], cwd=specdir, capture_output=True, text=True, timeout=timeout)
+            txt = pr.stdout + pr.stderr
+            _sh.rmtree(out, ignore_errors=True)
+            if "The outcome is: NoError" in txt:
+                return True, txt, time.time() - t0
+            if "The outcome is: Error" in txt and "invariant" in txt:
+                return False, txt, time.time() - t0
+            raise MachineryError(f"apalache failed on {module} ({tag}):\n{txt[-1500:]}")
+
+        for init_op, length, tag in ((init, 0, "base"), (ind_init, 1, "step")):
+            ok, txt, wall = one(SPEC, init_op, length, tag)
+            self.mc_runs.append({"spec": module, "cfg": f"apalache --init={init_op} --next={nxt} --inv={inv} --length={length}", "generated": 0,
+                                 "distinct": 0, "depth": length, "wall_s": round(wall, 1), "violated": [] if ok else [inv]})
+            if not ok:
+                rp = self.write_replay({"kind": "model", "spec": module, "cfg": f"apalache {tag}", "violated": [inv], "tlc_output": txt[-3000:]})
+                self.violation({"kind": "model", "clause": inv, "cfg": f"apalache-{tag}"}, rp)
+        if mutate:
+            fname, old, newtxt = mutate
+            d = self.wd / "apa_mutspec"
+            _sh.rmtree(d, ignore_errors=True)
+            _sh.copytree(SPEC, d, ignore=_sh.ignore_patterns("states", "*.bin"))
+            src = (d / fname).read_text()
+            if old not in src:
+                raise MachineryError(f"mutation anchor not found in {fname}")
+            (d / fname).write_text(src.replace(old, newtxt))
+            ok, txt, wall = one(d, ind_init, 1, "mut")
+            _sh.rmtree(d, ignore_errors=True)
+            self.mc_runs.append({"spec": module, "cfg": f"apalache step on mutated {fname} (must fail)", "generated": 0, "distinct": 0, "depth": 1,
+                                 "wall_s": round(wall, 1), "violated": [] if ok else [inv]})
+            if ok:
+                raise MachineryError(f"apalache: inductive step still passes on mutated {fname}: the argument is vacuous")
+
     # -- violations -----------------------------------------------------------------------
     MAX_REPLAYS = 8
 
